@@ -8,6 +8,7 @@ package harness
 
 import (
 	"math/rand"
+	"strings"
 	"testing"
 	"time"
 
@@ -251,6 +252,60 @@ func runC10(t *testing.T, seed int64, n int, out *Out) {
 			}
 			if len(pred) == 0 {
 				break
+			}
+			// an owner re-opens (consolidates into) one of their positions, preferably one that is close to or below the safety
+			// factor: extra leverage, or a pure collateral top-up (leverage 0 / 1) from dust to large; judged for open_healthy
+			if r.Intn(3) == 0 {
+				c := pred[r.Intn(len(pred))]
+				for _, q := range pred {
+					sfq := lpSafety()
+					if q.Module == "perp" {
+						sfq = perpSafety()
+					}
+					if q.PredErr == "" && q.Health.IsPositive() && q.Health.LT(sfq.Mul(D("1.02"))) && r.Intn(2) == 0 {
+						c = q
+					}
+				}
+				owner := w.byAddr[c.Owner]
+				amt := []math.Int{math.NewInt(int64(1 + r.Intn(20_000))), h.amt(100_000, 50_000_000), h.amt(50_000_000, 3_000_000_000)}[r.Intn(3)]
+				if c.Module == "lp" {
+					if p, ok := w.lpPositions(w.Ctx())[c.Id]; ok && owner != nil {
+						lev := []string{"1", "1", "2", "5"}[r.Intn(4)]
+						res := tx(owner, &lptypes.MsgOpen{Creator: owner.Addr.String(), CollateralAsset: "uusdc", CollateralAmount: amt, AmmPoolId: p.AmmPoolId, Leverage: D(lev), StopLossPrice: p.StopLossPrice})
+						line := J{"t": "c10.open", "id": wi, "module": "lp", "code": res.Code, "safety": decRaw(lpSafety()), "reopen": true, "leverage": lev}
+						if q, ok := w.lpPositions(w.Ctx())[c.Id]; ok && res.Code == 0 {
+							line["health"] = decRaw(q.PositionHealth)
+							line["pos"] = c.Id
+						}
+						stats["reopen/lp/"+codeStr(res.Code)]++
+						out.Line(line)
+					}
+				} else if m, err := w.App.PerpetualKeeper.GetMTP(w.Ctx(), sdk.MustAccAddressFromBech32(c.Owner), c.Id); err == nil && owner != nil {
+					lev := []string{"0", "0", "1", "2", "4"}[r.Intn(5)]
+					res := tx(owner, &perptypes.MsgOpen{Creator: owner.Addr.String(), Position: m.Position, Leverage: D(lev), TradingAsset: m.TradingAsset, Collateral: sdk.NewCoin(m.CollateralAsset, amt),
+						TakeProfitPrice: m.TakeProfitPrice, StopLossPrice: m.StopLossPrice, PoolId: m.AmmPoolId})
+					line := J{"t": "c10.open", "id": wi, "module": "perp", "code": res.Code, "safety": decRaw(perpSafety()), "reopen": true, "leverage": lev}
+					if q, err := w.App.PerpetualKeeper.GetMTP(w.Ctx(), sdk.MustAccAddressFromBech32(c.Owner), c.Id); err == nil && res.Code == 0 {
+						line["health"] = decRaw(q.MtpHealth)
+						line["pos"] = c.Id
+					}
+					stats["reopen/perp/"+codeStr(res.Code)]++
+					if res.Code != 0 {
+						lg := res.Log
+						if i := strings.LastIndex(lg, ": "); i >= 0 {
+							lg = lg[i+2:]
+						}
+						if len(lg) > 40 {
+							lg = lg[:40]
+						}
+						stats["reopen/perp/why/"+lg]++
+					}
+					out.Line(line)
+				}
+				pred = w.c10Predict(dt)
+				if len(pred) == 0 {
+					break
+				}
 			}
 			// a third party names a random subset of positions, in random lists
 			bot := bots[r.Intn(len(bots))]
